@@ -57,6 +57,7 @@ def outcome_of(run):
 
 
 _SHARED = {}
+INIT_CODE = 'seen = set()\ncalls = [0]\ndef first_time(x):\n    calls[0] += 1\n    if x in seen:\n        return False\n    seen.add(x)\n    return True\n'
 
 
 def shared_table(A):
@@ -85,6 +86,10 @@ def solo(text, A, B, names, style='full'):
             stream = io.StringIO()
             eng.query(text, eng.TableIterator(A2, names), tree.csvmod().CSVWriter(stream, False, None, ',', 'quoted'), warns)
             return stream.getvalue().split('\n'), None, warns
+        if style == 'init':
+            # the caller's init code keeps state of its own (a set of values seen so far): every query starts from the code's initial state
+            eng.query_table(text, A2, out, warns, B2, names, bn, hdr, True, INIT_CODE)
+            return out, hdr, warns
         if style == 'defaults':
             kw = {}
             if B2 is not None:
@@ -216,6 +221,9 @@ def scenarios(which='main'):
             ('select *', Tn, None, ['name', 'val'], 'shared'),
             ("update set a.val = a.val + a.name", Tn, None, ['name', 'val'], 'shared'),
             ('select top 1 *', Ts, None, None, 'shared_csv'),
+            ('select NR == 1, NR * 1.0, a1, NR', Ts, None, None, 'shared_csv'),          # True / 1.0 / 1 in one output and across outputs: equal as values, different as text
+            ('select a1, first_time(a1), calls[0]', Ts, None, None, 'init'),
+            ('select first_time(a2), a1 where first_time(a1)', Tn, None, None, 'init'),
         ]
     T0 = [['k', '1;2'], ['m', '3'], ['k', '4;5']]
     Tn = [['k', '2'], ['m', '10'], ['k', '3']]
@@ -396,7 +404,7 @@ def main(tier, seed):
     res = core.run_shards('vf.checks.c16', shards)
     return core.finish(PID, tier, seed, res, t0,
         rule='threads: all unordered pairs of 14 query kinds (same-kind pairs with different data) x every interleaving of their scheduling points (start, each get_record on input and join table, each write, finish) within the preemption bound, plan (records, bound) = %r; '
-             'histories: the complete tree of sequences of <= %d events over 25 scenarios, every node a forked live interpreter; a second tree of sequences of <= %d events over 9 scenarios that all run on the SAME caller-owned table objects (None cells, CSV and table writers); states = interleavings + history nodes, transitions = baton grants + history edges; '
+             'histories: the complete tree of sequences of <= %d events over 25 scenarios, every node a forked live interpreter; a second tree of sequences of <= %d events over 12 scenarios that all run on the SAME caller-owned table objects (None cells, CSV and table writers); states = interleavings + history nodes, transitions = baton grants + history edges; '
              'non-trivial = schedules with >= 2 context switches / histories of length >= 1' % (plan, depth, sdepth),
         assumptions=['scheduling points are exactly the points the property names; code between them runs atomically', 'the solo outcome is computed in a fresh python subprocess per query'],
         extra={'pairs': npairs, 'interleavings': total_interleavings, 'history_depth': depth, 'plan_records_and_preemption_bound': [[n, ('all' if b is None else b)] for n, b in plan]},
